@@ -172,7 +172,7 @@ class ASYNC:
                         return False
                     uid, callback = self._async.popleft()
 
-            # Only generators should be put back (they may not be exhausted)
-            if inspect.isgenerator(callback):
-                self._async.appendleft((uid, callback))
+            # whatever is in hand goes back: a generator may not be exhausted, and an entry popped
+            # on the last turn of the loop (the one before it just ended) has not been run at all
+            self._async.appendleft((uid, callback))
             return True
